@@ -123,7 +123,7 @@ def run_generic(case: dict) -> Result:
         key = f'{cname}.{prop}'
         from vf.props import c06 as _c06
         tight0 = _c06.tight_pairs(root)
-        unind0 = _c06.unindented_comment_before_body_line(O.print_text(root))   # the open finding needs such a comment in the text beforehand
+        unind_ids0 = _c06.unindented_comment_ids(root)   # the open finding needs an unindented comment in the document beforehand
         try:
             a.run()
         except common.REFUSAL:
@@ -164,7 +164,7 @@ def run_generic(case: dict) -> Result:
             # findings (compact neighbours glued by an insertion or removal, a bare number before a tight comma, an unindented comment inside a
             # body) are C06's and stay there.
             from vf.props import c06
-            if (c06.tight_pairs(root) - tight0) or c06.tight_number_comma_number(root) or (unind0 and c06.unindented_comment_before_body_line(O.print_text(root))) \
+            if (c06.tight_pairs(root) - tight0) or c06.tight_number_comma_number(root) or (c06.unindented_comment_before_body_line(O.print_text(root)) and not (c06.unindented_comment_ids(root) - unind_ids0)) \
                     or any(type(t).__name__ == 'BlockComment' and not t.claimed for t in O.store_tokens(root.token_store)):
                 classes.add('unparsable:c06-open-finding-layout')
                 break
